@@ -46,7 +46,7 @@ def one(item):
             tests = t.stdout.strip().splitlines()[-1] if t.stdout.strip() else "?"
             subprocess.call(["rm", "-rf", td])
         t0 = time.time()
-        env = dict(os.environ, VERIF_REPO=wt, VERIF_SHARDS=os.environ.get("VERIF_SHARDS", "4"))
+        env = dict(os.environ, VERIF_REPO=wt, VERIF_SHARDS=os.environ.get("VERIF_SHARDS", "4"), VERIF_EVIDENCE_DIR=wt + "-ev")
         c = subprocess.run([os.path.join(ROOT, "check"), pid, "--tier", "quick"], cwd=ROOT, env=env, capture_output=True, text=True)
         dt = time.time() - t0
         mech = ""
@@ -58,12 +58,13 @@ def one(item):
         return (pid, name, verdict, dt, (tests + " | " if tests else "") + mech)
     finally:
         subprocess.call(["git", "-C", "/repo", "worktree", "remove", "--force", wt])
+        subprocess.call(["rm", "-rf", wt + "-ev"])
 
 todo = list(items())
 with ThreadPoolExecutor(jobs) as ex:
     res = list(ex.map(one, todo))
 # evidence files were rewritten by the audit runs against scratch trees: restore the committed ones
-subprocess.call(["git", "-C", ROOT, "checkout", "--", "evidence"])
+pass  # evidence of /repo is untouched: audit runs write to VERIF_EVIDENCE_DIR
 w = max([len(r[1]) for r in res] + [10])
 for pid, name, verdict, dt, info in res:
     print("%-4s %-*s %-12s %5.0fs  %s" % (pid, w, name, verdict, dt, info))
